@@ -23,8 +23,76 @@ META = {
 
 def run(ctx) -> None:
     run_batch_correspondence(ctx, "C04", ctx.n(60, 1500))
+    shape_probe(ctx, ctx.n(12, 300))
     if F is not None:
         F.run(ctx)
+
+
+def shape_probe(ctx, n: int) -> None:
+    """two elements with differently shaped parameter batches (incl. size-1 dimensions: (1,), (m,1) x (n,)) tracked one
+    after another: every moment / coordinate of the outgoing beam must have exactly the combined vector shape and each
+    entry must equal the scalar simulation of that entry - for both beam types"""
+    import itertools
+    import numpy as np
+    import torch
+    import cheetah
+    import lattices as LT
+    rep, rng = ctx.report, ctx.rng
+    F64 = torch.float64
+    menu = [((1,), ()), ((3, 1), (3,)), ((2, 1), (3,)), ((1,), (2,)), ((2,), (2,)), ((1, 1), (2,)), ((3,), ()), ((2, 1), (1, 3))]
+    for _ in range(n):
+        sa, sb = menu[int(rng.integers(len(menu)))]
+        k1 = rng.uniform(-6, 6, size=sa)
+        Ld = rng.uniform(0.2, 1.5, size=sb)
+        En = float(np.exp(rng.uniform(np.log(5e6), np.log(1e9))))
+        P = LT.gen_particles(rng, 5)
+        mid = str(rng.choice(["none", "bpm", "marker"]))
+        shape = torch.broadcast_shapes(tuple(sa), tuple(sb))
+        for bt in ("ParameterBeam", "ParticleBeam"):
+            b = LT.particle_beam(P, En) if bt == "ParticleBeam" else LT.parameter_beam_from(P, En)
+            rep.fals_cases += 1
+            rep.count(f"shape-probe:{bt}:{sa}x{sb}")
+            rep.case(("shape-probe", bt, sa, sb, mid))
+            desc = {"kind": "shape-probe", "k1_shape": list(sa), "drift_shape": list(sb), "between": mid, "beam": bt}
+            try:
+                q = cheetah.Quadrupole(length=torch.tensor(0.3, dtype=F64), k1=torch.tensor(k1, dtype=F64), dtype=F64)
+                d = cheetah.Drift(length=torch.tensor(Ld, dtype=F64), dtype=F64)
+                els = [q] + ([cheetah.BPM(is_active=True)] if mid == "bpm" else [cheetah.Marker()] if mid == "marker" else []) + [d]
+                out = b
+                for e in els:
+                    out = e.track(out)
+                seg_out = cheetah.Segment(els).track(b)
+            except Exception as ex:
+                rep.fail("falsifier", f"C04|Quadrupole->Drift|shapes with size-1 dims|{bt}|raises",
+                         f"k1 shape {sa}, drift length shape {sb}: {type(ex).__name__}: {ex}", desc)
+                continue
+            for label, o in (("element-by-element", out), ("Segment", seg_out)):
+                got_mu = o._mu if bt == "ParameterBeam" else o.particles
+                want_shape = tuple(shape) + ((7,) if bt == "ParameterBeam" else (5, 7))
+                if tuple(got_mu.shape) != want_shape and tuple(torch.broadcast_shapes(got_mu.shape, want_shape)) != want_shape:
+                    rep.fail("falsifier", f"C04|Quadrupole->Drift|shapes with size-1 dims|{bt}|vector shape",
+                             f"{label}: k1 shape {sa}, drift length shape {sb}: outgoing {'mean' if bt == 'ParameterBeam' else 'particles'} "
+                             f"has shape {tuple(got_mu.shape)}, combined vector shape requires {want_shape}", desc)
+                    break
+                full = got_mu.expand(want_shape)
+                bad = None
+                for idx in itertools.product(*[range(k) for k in shape]):
+                    ka = float(np.broadcast_to(k1, shape)[idx]) if shape else float(k1)
+                    lb = float(np.broadcast_to(Ld, shape)[idx]) if shape else float(Ld)
+                    qs = cheetah.Quadrupole(length=torch.tensor(0.3, dtype=F64), k1=torch.tensor(ka, dtype=F64), dtype=F64)
+                    ds = cheetah.Drift(length=torch.tensor(lb, dtype=F64), dtype=F64)
+                    ref = ds.track(qs.track(b))
+                    want = ref._mu if bt == "ParameterBeam" else ref.particles
+                    sc = torch.tensor(list(LT.REF_SIG), dtype=F64)
+                    err = float(((full[idx] - want).abs() / sc).max())
+                    if not np.isfinite(err) or err > 1e-8:
+                        bad = (idx, err)
+                        break
+                if bad:
+                    rep.fail("falsifier", f"C04|Quadrupole->Drift|shapes with size-1 dims|{bt}|entry value",
+                             f"{label}: k1 shape {sa}, drift length shape {sb}: entry {bad[0]} differs from its scalar simulation "
+                             f"by {bad[1]:.2e} (scaled)", desc)
+                    break
 
 
 def corpus_case(ctx, r: dict) -> None:
